@@ -7,14 +7,18 @@ from .common import new_run
 
 LEVEL = "other"
 LEVEL_TEXT = (
-    "Decides the structural content of the three mechanisms over all paths and all expression classes: the connective "
-    "table of as_trivial (identity / absorbing element / unknown), the provenance of every False and [] that "
-    "flatten_logical_and can return, the provenance of the predicate a Selection stores, and that every child-expression "
-    "field of every one of the 12 expression classes contributes to columns_required and is_supported_by.  Truth values "
-    "on concrete rows are not evaluated."
+    "Folding and flattening are decided by evaluation: as_trivial and flatten_logical_and are interpreted from the source "
+    "(checker's own evaluator; repository code is not run) on every predicate tree of depth <= 2 with 0-3 operands over "
+    "the literals and four opaque atoms (~5 300 trees) and compared with the tree's value under every truth assignment - "
+    "a folded constant must be right, False from the flattening means unsatisfiable, a flattened list must be equivalent.  "
+    "Structural rules decide, over all paths and all 12 expression classes: the provenance of the predicate a Selection "
+    "stores, that every child-expression field contributes to columns_required and that acceptance by is_supported_by "
+    "*implies* (as a Boolean function) the support of every child, and the set formulas of required columns exactly over "
+    "Venn regions; the connective/flatten path shapes only localise a failure.  Truth values on concrete rows of a "
+    "database are not evaluated."
 )
-LEVEL_NOTE = "Trusted: the connective table (And: True/False, Or: False/True).  Not decided: evaluation on rows."
-TECHNIQUE = "per-path provenance rules over the closed expression hierarchy (ast paths, backward slices)"
+LEVEL_NOTE = "Bounded: trees of depth <= 2 (the functions are structurally recursive with one case per class).  Trusted: the reference semantics of And/Or/Not.  Not decided: evaluation on rows."
+TECHNIQUE = "finite-domain interpretation of the folding/flattening functions on all small predicate trees + per-path provenance and Boolean-function rules over the closed expression hierarchy (ast)"
 
 
 def check(model, tier):
